@@ -63,6 +63,20 @@ proof fn lemma_fin_keep(rm: Seq<Option<WordMatch>>, qm: Seq<Option<WordMatch>>, 
     let k = choose|k: int| 0 <= k < qm.len() && k < qtext.words@.len() && #[trigger] qm[k] is Some && !qtext.words@[k].fin;
     assert(qm2[k] is Some);
 }
+// TM-some in general: record word j leaves the record a match through the first query word — because word_match cannot refuse the pair
+// (must_pair), or because the split / joined attempt cannot fail for it (C14)
+pub open spec fn must_any(rtext: &TextRef, qtext: &TextRef, j: int) -> bool { must_pair(rtext, qtext, j) || pair_split(rtext, qtext, j) || pair_join(rtext, qtext, j) }
+pub open spec fn all_none(s: Seq<Option<WordMatch>>) -> bool { forall|k: int| 0 <= k < s.len() ==> #[trigger] s[k] is None }
+// three different letters survive the insertion of one character
+proof fn lemma_three_ins(r: Seq<char>, q: Seq<char>, p: int)
+    requires is_ins(r, q, p), three_letters(r)
+    ensures three_letters(q)
+{
+    let (i, j, k) = choose|i: int, j: int, k: int| 0 <= i < r.len() && 0 <= j < r.len() && 0 <= k < r.len() && #[trigger] r[i] != #[trigger] r[j] && r[i] != #[trigger] r[k] && r[j] != r[k];
+    let i2 = if i < p { i } else { i + 1 }; let j2 = if j < p { j } else { j + 1 }; let k2 = if k < p { k } else { k + 1 };
+    assert(q[i2] == r[i] && q[j2] == r[j] && q[k2] == r[k]);
+    assert(q[i2] != q[j2] && q[i2] != q[k2] && q[j2] != q[k2]);
+}
 pub open spec fn some_slot(s: Seq<Option<WordMatch>>) -> bool { exists|k: int| 0 <= k < s.len() && #[trigger] s[k] is Some }
 pub open spec fn mono_slots(a: Seq<Option<WordMatch>>, b: Seq<Option<WordMatch>>) -> bool { a.len() == b.len() && forall|k: int| 0 <= k < a.len() && #[trigger] a[k] is Some ==> b[k] is Some }
 // the text-level cases of common/tm_contract.rs are instances
@@ -123,6 +137,9 @@ pub fn text_match(rtext: &TextRef, qtext: &TextRef, tls: &mut Tls, tlsm: &mut Tl
         (exists|j: int| #[trigger] must_pair(rtext, qtext, j)) ==> first_matched(ret.1@), // [C13]
         tm_first(rtext, qtext, ret), // [C13]
         tm_fin(qtext, ret), // [C13]
+        // C14 (text level): a record word spelled as the first two query words, or two record words run together in the first query word,
+        // give the record a match, and the first query word is matched
+        tm_c14(rtext, qtext, ret), // [C14]
 {
     proof {
         if exists|j: int| #![trigger pair_prefix(rtext, qtext, j)] #![trigger pair_equal(rtext, qtext, j)] pair_prefix(rtext, qtext, j) || pair_equal(rtext, qtext, j) {
@@ -134,7 +151,12 @@ pub fn text_match(rtext: &TextRef, qtext: &TextRef, tls: &mut Tls, tlsm: &mut Tl
             lemma_edit_must(rtext, qtext, j, p);
         }
     }
-    let ghost need: bool = exists|j: int| #[trigger] must_pair(rtext, qtext, j);
+    proof {
+        if exists|j: int| #[trigger] must_pair(rtext, qtext, j) { let j = choose|j: int| #[trigger] must_pair(rtext, qtext, j); assert(must_any(rtext, qtext, j)); }
+        if exists|j: int| #[trigger] pair_split(rtext, qtext, j) { let j = choose|j: int| #[trigger] pair_split(rtext, qtext, j); assert(must_any(rtext, qtext, j)); }
+        if exists|j: int| #[trigger] pair_join(rtext, qtext, j) { let j = choose|j: int| #[trigger] pair_join(rtext, qtext, j); assert(must_any(rtext, qtext, j)); }
+    }
+    let ghost need: bool = exists|j: int| #[trigger] must_any(rtext, qtext, j);
     {
         let rcell = &mut tlsm.RMATCHES;
         {
@@ -154,7 +176,7 @@ pub fn text_match(rtext: &TextRef, qtext: &TextRef, tls: &mut Tls, tlsm: &mut Tl
                         slots_ok(rmatches@, rtext), slots_ok(qmatches@, qtext), __end0 == qtext.words@.len(), __i0 <= __end0,
                         qtext.words@.len() == 0 ==> (forall|k: int| 0 <= k < rmatches@.len() ==> rmatches@[k] is None),
                         __i0 == 0 ==> (forall|k: int| 0 <= k < qmatches@.len() ==> qmatches@[k] is None),
-                        __i0 >= 1 && need ==> some_slot(rmatches@), need == (exists|j: int| #[trigger] must_pair(rtext, qtext, j)),
+                        __i0 >= 1 && need ==> some_slot(rmatches@), need == (exists|j: int| #[trigger] must_any(rtext, qtext, j)),
                         __i0 >= 1 && need ==> qmatches@[0] is Some, // [C13]
                         __i0 == 0 ==> (forall|k: int| 0 <= k < rmatches@.len() ==> rmatches@[k] is None),
                         fin_inv(rmatches@, qmatches@, qtext), // [C13]
@@ -178,13 +200,14 @@ pub fn text_match(rtext: &TextRef, qtext: &TextRef, tls: &mut Tls, tlsm: &mut Tl
                                 __end1 == rtext.words@.len(), __i1 <= __end1, qk == __i0 - 1, view_of(&qword, qtext, qk), cand_ok(candidate, rtext, qtext),
                                 mono_slots(rm0, rmatches@), mono_slots(qm0, qmatches@),
                                 fin_inv(rmatches@, qmatches@, qtext), cand_fin(candidate, &qword), // [C13]
-                                qk == 0 ==> candidate is Some || qmatches@[0] is Some || (forall|j: int| 0 <= j < __i1 ==> !#[trigger] must_pair(rtext, qtext, j)), // [C13]
+                                qk == 0 ==> candidate is Some || qmatches@[0] is Some || (forall|j: int| 0 <= j < __i1 ==> !#[trigger] must_any(rtext, qtext, j)), // [C13]
                                 // while the first query word is being matched a record slot is only filled together with that word's slot
                                 qk == 0 && some_slot(rmatches@) ==> qmatches@[0] is Some, // [C13]
+                                qk == 0 ==> some_slot(rmatches@) || all_none(qmatches@), // [C14]
                                 // TM-some: for the first query word, every record word seen so far that must match has left a candidate or a filled slot
-                                qk == 0 ==> candidate is Some || some_slot(rmatches@) || (forall|j: int| 0 <= j < __i1 ==> !#[trigger] must_pair(rtext, qtext, j)),
-                            ensures qk == 0 ==> candidate is Some || some_slot(rmatches@) || (forall|j: int| 0 <= j < __end1 ==> !#[trigger] must_pair(rtext, qtext, j)),
-                                qk == 0 ==> candidate is Some || qmatches@[0] is Some || (forall|j: int| 0 <= j < __end1 ==> !#[trigger] must_pair(rtext, qtext, j)), // [C13]
+                                qk == 0 ==> candidate is Some || some_slot(rmatches@) || (forall|j: int| 0 <= j < __i1 ==> !#[trigger] must_any(rtext, qtext, j)),
+                            ensures qk == 0 ==> candidate is Some || some_slot(rmatches@) || (forall|j: int| 0 <= j < __end1 ==> !#[trigger] must_any(rtext, qtext, j)),
+                                qk == 0 ==> candidate is Some || qmatches@[0] is Some || (forall|j: int| 0 <= j < __end1 ==> !#[trigger] must_any(rtext, qtext, j)), // [C13]
                             decreases __end1 - __i1,
                         {
                             let rword = &rtext.words[__i1];
@@ -205,6 +228,14 @@ pub fn text_match(rtext: &TextRef, qtext: &TextRef, tls: &mut Tls, tlsm: &mut Tl
                                 if qk == 0 {
                                     if __r2 is Some || __r3 is Some { assert(some_slot(rmatches@)); }
                                     else if must_pair(rtext, qtext, __i1 as int - 1) { assert(candidate is Some); }
+                                    else if pair_join(rtext, qtext, __i1 as int - 1) {
+                                        // the joined attempt cannot fail unless a record slot was already filled
+                                        if !some_slot(rm1) { assert(rm1[__i1 as int] is None); assert(false); }
+                                        assert(some_slot(rm1)); let k = choose|k: int| 0 <= k < rm1.len() && #[trigger] rm1[k] is Some; assert(rmatches@[k] is Some);
+                                    } else if pair_split(rtext, qtext, __i1 as int - 1) {
+                                        if !some_slot(rm1) { assert(all_none(qm1)); assert(qm1[1] is None); assert(false); }
+                                        assert(some_slot(rm1)); let k = choose|k: int| 0 <= k < rm1.len() && #[trigger] rm1[k] is Some; assert(rmatches@[k] is Some);
+                                    }
                                     if stop { assert(candidate is Some || some_slot(rmatches@)); }
                                     if !(candidate is Some || some_slot(rmatches@)) {
                                         assert(cand0 is None);
@@ -241,7 +272,7 @@ pub fn text_match(rtext: &TextRef, qtext: &TextRef, tls: &mut Tls, tlsm: &mut Tl
                         proof {
                             if need {
                                 if qk == 0 {
-                                    let j = choose|j: int| #[trigger] must_pair(rtext, qtext, j);
+                                    let j = choose|j: int| #[trigger] must_any(rtext, qtext, j);
                                     assert(some_slot(rmatches@));
                                 } else {
                                     let k = choose|k: int| 0 <= k < rm0.len() && #[trigger] rm0[k] is Some;
@@ -333,6 +364,8 @@ fn text_match__c1(rtext: &TextRef, qtext: &TextRef, rword: &WordView, qword: &Wo
         mono_slots(old(qmatches)@, final(qmatches)@), ret is Some ==> final(qmatches)@[qword.offset as int] is Some, ret is None ==> final(qmatches)@ == old(qmatches)@, // [C13]
         fin_inv(old(rmatches)@, old(qmatches)@, qtext) ==> fin_inv(final(rmatches)@, final(qmatches)@, qtext), // [C13]
         cand_fin(*old(candidate), qword) ==> cand_fin(*final(candidate), qword), // [C13]
+        // C14: two record words run together in the (first) query word: the joined attempt succeeds when the next record slot is free
+        pair_join(rtext, qtext, rword.offset as int) && qword.offset == 0 && old(rmatches)@[rword.offset as int + 1] is None ==> ret is Some, // [C14]
 {
     let rnext = rtext.words.get(rword.offset + 1)?.to_view(rtext);
     proof {
@@ -341,14 +374,44 @@ fn text_match__c1(rtext: &TextRef, qtext: &TextRef, rword: &WordView, qword: &Wo
         lemma_view_wfs(rword, rtext, k); lemma_view_wfs(&rnext, rtext, k + 1); lemma_view_wfs(qword, qtext, qword.offset as int);
         assert(rtext.words@[k].slice.1 <= rtext.words@[k + 1].slice.0);
     }
+    let ghost pj = pair_join(rtext, qtext, rword.offset as int) && qword.offset == 0;
+    proof {
+        if pj {
+            let k = rword.offset as int;
+            assert(rword.vchars() == tchars(rtext, k)); assert(rnext.vchars() == tchars(rtext, k + 1)); assert(qword.vchars() == tchars(qtext, 0));
+            assert(tchars(qtext, 0).len() == tchars(rtext, k).len() + tchars(rtext, k + 1).len());
+        }
+    }
     if qword.len() < rword.len() + rword.dist(&rnext) {
         return None;
     }
     if rmatches.get(rword.offset + 1)?.is_some() {
         return None;
     }
+    proof {
+        if pj {
+            // C14: the query word is the two record words without their separator: one deletion away from the joined record word,
+            // whatever view `join` makes of the two words
+            let k = rword.offset as int;
+            let qc = qword.vchars(); let p = (rword.slice.1 - rword.slice.0) as int;
+            assert forall|jw: WordView| #![trigger jw.wfs()] #![trigger edit1_case(&jw, qword)] jw.slice == (rword.slice.0, rnext.slice.1) && jw.same_text(rword) && jw.wfs() && jw.small() implies edit1_case(&jw, qword) && jac_passes(&jw, qword) by {
+                let rc = jw.vchars();
+                assert(rc.len() == qc.len() + 1);
+                assert(is_ins(qc, rc, p)) by {
+                    assert forall|t: int| 0 <= t < p implies qc[t] == rc[t] by { assert(qc[t] == tchars(rtext, k)[t]); }
+                    assert forall|t: int| p <= t < qc.len() implies qc[t] == rc[t + 1] by { assert(qc[t] == tchars(rtext, k + 1)[t - p]); }
+                }
+                lemma_three_ins(qc, rc, p);
+                lemma_c04_word(&jw, qword, p);
+            }
+        }
+    }
     let (rmatch, qmatch) = word_match(&rword.join(&rnext), &qword, tls)?;
-    proof { lemma_typos_ceil(rmatch.typos); }
+    proof {
+        lemma_typos_ceil(rmatch.typos);
+        // C14: the match reaches into the second record word (the stem of the run-together query word is its length)
+        if pj { assert(rmatch.subslice.1 + 1 >= qmatch.subslice.1 && qmatch.subslice.1 >= qword.stem); }
+    }
     let (rmatch1, rmatch2) = rmatch.split(&rword, &rnext)?;
     proof {
         let k = rword.offset as int;
@@ -391,6 +454,8 @@ fn text_match__c2(rtext: &TextRef, qtext: &TextRef, rword: &WordView, qword: &Wo
         mono_slots(old(qmatches)@, final(qmatches)@), ret is Some ==> final(qmatches)@[qword.offset as int] is Some, ret is None ==> final(qmatches)@ == old(qmatches)@, // [C13]
         fin_inv(old(rmatches)@, old(qmatches)@, qtext) ==> fin_inv(final(rmatches)@, final(qmatches)@, qtext), // [C13]
         cand_fin(*old(candidate), qword) ==> cand_fin(*final(candidate), qword), // [C13]
+        // C14: a record word spelled as the first two query words: the split attempt succeeds when the second query slot is free
+        pair_split(rtext, qtext, rword.offset as int) && qword.offset == 0 && old(qmatches)@[1] is None ==> ret is Some, // [C14]
 {
     let qnext = qtext.words.get(qword.offset + 1)?.to_view(qtext);
     proof {
@@ -399,11 +464,35 @@ fn text_match__c2(rtext: &TextRef, qtext: &TextRef, rword: &WordView, qword: &Wo
         lemma_view_wfs(qword, qtext, k); lemma_view_wfs(&qnext, qtext, k + 1); lemma_view_wfs(rword, rtext, rword.offset as int);
         assert(qtext.words@[k].slice.1 <= qtext.words@[k + 1].slice.0);
     }
+    let ghost ps = pair_split(rtext, qtext, rword.offset as int) && qword.offset == 0;
+    proof {
+        if ps {
+            let j = rword.offset as int;
+            assert(rword.vchars() == tchars(rtext, j)); assert(qword.vchars() == tchars(qtext, 0)); assert(qnext.vchars() == tchars(qtext, 1));
+            assert(tchars(rtext, j).len() == tchars(qtext, 0).len() + tchars(qtext, 1).len());
+        }
+    }
     if rword.len() < qword.len() + qword.dist(&qnext) {
         return None;
     }
     if qmatches.get(qword.offset + 1)?.is_some() {
         return None;
+    }
+    proof {
+        if ps {
+            // C14: the two query words with their separator are one insertion away from the record word, whatever view `join` makes of them
+            let j = rword.offset as int;
+            let rc = rword.vchars(); let p = (qword.slice.1 - qword.slice.0) as int;
+            assert forall|jw: WordView| #![trigger jw.wfs()] #![trigger edit1_case(rword, &jw)] jw.slice == (qword.slice.0, qnext.slice.1) && jw.same_text(qword) && jw.wfs() && jw.small() && !jw.fin implies edit1_case(rword, &jw) && jac_passes(rword, &jw) by {
+                let qc = jw.vchars();
+                assert(qc.len() == rc.len() + 1);
+                assert(is_ins(rc, qc, p)) by {
+                    assert forall|t: int| 0 <= t < p implies rc[t] == qc[t] by { assert(rc[t] == tchars(qtext, 0)[t]); }
+                    assert forall|t: int| p <= t < rc.len() implies rc[t] == qc[t + 1] by { assert(rc[t] == tchars(qtext, 1)[t - p]); }
+                }
+                lemma_c04_word(rword, &jw, p);
+            }
+        }
     }
     let (rmatch, qmatch) = word_match(&rword, &qword.join(&qnext), tls)?;
     proof { lemma_typos_ceil(qmatch.typos); }
